@@ -196,8 +196,16 @@ func tcpPair(l gonet.Listener) (gonet.Conn, gonet.Conn, error) {
 	return a, r.c, nil
 }
 
+// srcFor wraps a prefix in one of the in-memory reader types decoders are handed in practice.
+func srcFor(b []byte, i int) io.Reader {
+	if i%2 == 0 {
+		return bytes.NewBuffer(append([]byte{}, b...)) // what the bus gives a decoder: a *bytes.Buffer over the payload
+	}
+	return bytes.NewReader(b)
+}
+
 func c08(c *wk.Ctx) {
-	c.Note("rule", "valid encodings (messages, dynamic values, typed data of random signatures, MetaObject, ObjectReference, ServiceInfo, CapabilityMap, Go values through the reflection decoder) are cut at every position k<len when len<=512, otherwise at every length/count field boundary +-1, around 4 KiB .. 128 KiB into every string or buffer longer than 4 KiB, plus 64 random positions; stream socket = messages cut at the header boundary, inside the payload and one byte before the end, sent over a unix socket pair / a TCP loopback connection whose peer then closes (read directly and through ConnStream); stream long = data whose last element is a string / buffer of 64 KiB .. 200 KiB; each strict prefix is fed to the real decoder, which must return an error. Evaluations count prefixes. Distinct non-trivial = distinct (entry point, signature, length) whose full encoding the decoder accepts.")
+	c.Note("rule", "valid encodings (messages, dynamic values, typed data of random signatures, MetaObject, ObjectReference, ServiceInfo, CapabilityMap, Go values through the reflection decoder) are cut at every position k<len when len<=512, otherwise at every length/count field boundary +-1, around 4 KiB .. 128 KiB into every string or buffer longer than 4 KiB, plus 64 random positions; stream socket = messages cut at the header boundary, inside the payload and one byte before the end, sent over a unix socket pair / a TCP loopback connection whose peer then closes (read directly and through ConnStream); stream long = data whose last element is a string / buffer of 64 KiB .. 200 KiB; each strict prefix is fed to the real decoder (from a *bytes.Reader or a *bytes.Buffer), which must return an error. Evaluations count prefixes. Distinct non-trivial = distinct (entry point, signature, length) whose full encoding the decoder accepts.")
 	exh := 512
 	scal := append(append([]rc.Kind{}, rc.AllScalars...), rc.Dyn)
 	inner := rc.GenOpts{Depth: 2, Width: 3, ComparableKeys: true, MaxAnonNest: 3}
@@ -294,7 +302,7 @@ func c08(c *wk.Ctx) {
 		}
 		enc, fields := rc.EncodeFields(rc.T(rc.Dyn), d)
 		cutAll(c, "value", i, "value.NewValue", enc, cuts(rng, len(enc), fields, exh), func(b []byte) error {
-			_, err := value.NewValue(bytes.NewReader(b))
+			_, err := value.NewValue(srcFor(b, i))
 			return err
 		}, map[string]interface{}{"signature": d.T.Sig(), "class": truncClass(d.T)})
 		if c.WantSample() && i%100 == 1 {
@@ -325,7 +333,7 @@ func c08(c *wk.Ctx) {
 		}
 		detail := map[string]interface{}{"signature": t.Sig(), "class": truncClass(t)}
 		cutAll(c, "typed", i, "signature.TypeReader.Read", enc, cuts(rng, len(enc), fields, exh), func(b []byte) error {
-			_, err := ty.Reader().Read(bytes.NewReader(b))
+			_, err := ty.Reader().Read(srcFor(b, i))
 			return err
 		}, detail)
 		// the same datum through the reflection decoder
@@ -397,14 +405,14 @@ func c08(c *wk.Ctx) {
 			v := rc.GenValue(rng, rc.MetaObjectType, vo)
 			enc, fields := rc.EncodeFields(rc.MetaObjectType, v)
 			cutAll(c, "structs", i, "object.ReadMetaObject", enc, cuts(rng, len(enc), fields, exh), func(b []byte) error {
-				_, err := object.ReadMetaObject(bytes.NewReader(b))
+				_, err := object.ReadMetaObject(srcFor(b, i/4))
 				return err
 			}, map[string]interface{}{"signature": "MetaObject"})
 		case 1:
 			v := rc.GenValue(rng, rc.ObjectRefType, vo)
 			enc, fields := rc.EncodeFields(rc.ObjectRefType, v)
 			cutAll(c, "structs", i, "object.ReadObjectReference", enc, cuts(rng, len(enc), fields, exh), func(b []byte) error {
-				_, err := object.ReadObjectReference(bytes.NewReader(b))
+				_, err := object.ReadObjectReference(srcFor(b, i/4))
 				return err
 			}, map[string]interface{}{"signature": "ObjectReference"})
 		case 2:
